@@ -139,6 +139,33 @@ func InductionOf(phi *ssa.Phi) (*Induction, bool) {
 	// condition compares phi+A with a bound.
 	b := phi.Block()
 	iff := IfOf(b)
+	usesPhi := func(i *ssa.If) bool {
+		if i == nil {
+			return false
+		}
+		c, ok := i.Cond.(*ssa.BinOp)
+		if !ok {
+			return false
+		}
+		if p, _, ok := AffineIn(c.X); ok && p == phi {
+			return true
+		}
+		if p, _, ok := AffineIn(c.Y); ok && p == phi {
+			return true
+		}
+		return false
+	}
+	if !usesPhi(iff) {
+		// rotated loop with a body of several blocks (`for i := range n { if … }`): the test sits at the end of the
+		// latch, the block that computes the value fed back into the φ
+		for _, e := range phi.Edges {
+			if step, ok := e.(*ssa.BinOp); ok {
+				if l := IfOf(step.Block()); usesPhi(l) {
+					iff = l
+				}
+			}
+		}
+	}
 	if iff == nil {
 		return nil, false
 	}
@@ -166,6 +193,22 @@ func InductionOf(phi *ssa.Phi) (*Induction, bool) {
 		return nil, false
 	}
 	ind.A = a
+	// bottom-tested (rotated) loop, the form of `for i := range n`: the test at the end of the body compares the
+	// *next* value (the very value fed back into the φ) with the bound, so the body runs for φ itself up to
+	// bound-1 — the same range as a top-tested `φ < bound`
+	if a == 1 {
+		rotated := false
+		for _, sc := range iff.Block().Succs {
+			if sc == phi.Block() {
+				rotated = true // the test is the source of the back edge (rangeindex loops test before the body)
+			}
+		}
+		for _, e := range phi.Edges {
+			if e == x && rotated {
+				ind.A = 0
+			}
+		}
+	}
 	ind.Cond = iff
 	ind.BoundV = y
 	switch op {
